@@ -37,6 +37,7 @@ profile. They exist because seeded changes of round 2 needed them to manifest (D
                       the download directory
  p_provided_name_is_module  a name that is both a real module and provided by a build-dependency module; a third module depends on the name
  p_download_with_srcdir  a downloaded module with an explicit `srcdir:` (the download goes there, and so does its tag file)
+ p_task_killed        a task command that is killed by a signal (stand-in sh: `KILLME`), with or without `ignore_ctrl_c: true`: a failed command
  p_subdirs_later_doc  a multi-document file listing a sub-directory from a document that is not the first, with different defaults
 """
 import copy, random
@@ -555,6 +556,26 @@ def download_with_srcdir(p, rng):
         a[kk] = ["dws", "dwsuser"] + list(a.get(kk) or [])
 
 
+def task_killed(p, rng):
+    root = _root(p)
+    cands = [c for c in (root.get("contexts") or []) + (root.get("builders") or []) if isinstance(c.get("tasks"), dict) and c["tasks"]]
+    mods = [m for k, m, pa, dd in _modules(p) if isinstance(m.get("tasks"), dict) and m["tasks"]]
+    holders = cands + mods
+    if not holders:
+        return
+    h = rng.choice(holders)
+    name = rng.choice(sorted(h["tasks"]))
+    t = h["tasks"][name]
+    if not isinstance(t.get("cmd"), list) or not t["cmd"]:
+        return
+    i = rng.randrange(len(t["cmd"]))
+    t["cmd"][i] = str(t["cmd"][i]).replace(" FAILME", "") + " KILLME"
+    if rng.random() < 0.6:
+        t["ignore_ctrl_c"] = True
+    if len(t["cmd"]) == 1 or rng.random() < 0.5:
+        t["cmd"].append("after-the-killed-one ${app}")
+
+
 def subdirs_later_doc(p, rng):
     docs = p["files"]["laze-project.yml"]
     root = docs[0]
@@ -572,7 +593,7 @@ def subdirs_later_doc(p, rng):
 
 
 SHAPES = [("p_rule_rename_chain", rule_rename_chain), ("p_ifthen_feature_cond", ifthen_feature_cond), ("p_empty_blockallow", empty_blockallow),
-          ("p_rule_export_escape", rule_export_escape), ("p_optsrc_same_guard", optsrc_same_guard), ("p_subdirs_later_doc", subdirs_later_doc), ("p_download_with_srcdir", download_with_srcdir), ("p_defaults_uses_removed", defaults_uses_removed), ("p_app_custom_build", app_custom_build),
+          ("p_rule_export_escape", rule_export_escape), ("p_optsrc_same_guard", optsrc_same_guard), ("p_subdirs_later_doc", subdirs_later_doc), ("p_task_killed", task_killed), ("p_download_with_srcdir", download_with_srcdir), ("p_defaults_uses_removed", defaults_uses_removed), ("p_app_custom_build", app_custom_build),
           ("p_same_dldir_downloads", same_dldir_downloads), ("p_desc_with_builder", desc_with_builder), ("p_srcdir_in_root_download", srcdir_in_root_download),
           ("p_provided_name_is_module", provided_name_is_module), ("p_self_named_unique", self_named_unique), ("p_cli_comma_define", cli_comma_define), ("p_custom_build_no_out", custom_build_no_out), ("p_two_patched_downloads", two_patched_downloads), ("p_shadowed_provider", shadowed_provider),
           ("p_dup_listing", dup_listing), ("p_ctx_shuffle", ctx_shuffle), ("p_app_dup", app_dup), ("p_rule_field_variant", rule_field_variant),
